@@ -413,9 +413,12 @@ func H02Unit() {
 // of the line is recorded, in order.
 func H02UnitLine() {
 	rep := vndChoice("repeated-field", 4) // 3 = none of them was declared before
+	conflict := rep < 3 && vndBool("with-another-value")
 	fields := []string{"a=1", "b=2", "c=3"}
 	text := []byte{}
-	if rep < 3 {
+	if conflict {
+		text = append(text, ("Unit u " + fields[rep][:2] + "9\n")...)
+	} else if rep < 3 {
 		text = append(text, ("Unit u " + fields[rep] + "\n")...)
 	} else {
 		text = append(text, "Unit v a=1\n"...)
@@ -423,6 +426,7 @@ func H02UnitLine() {
 	text = append(text, "Unit u a=1 b=2 c=3\n"...)
 	r := NewReader(bytes.NewReader(text), "f")
 	got := ""
+	nerr := 0
 	for r.Scan() {
 		switch rec := r.Result().(type) {
 		case *UnitMetadata:
@@ -431,10 +435,14 @@ func H02UnitLine() {
 				got += rec.Unit + " " + rec.Key + "=" + rec.Value + ";"
 			}
 		case *SyntaxError:
-			vndAssert(false, "no-syntax-error-for-a-repeated-pair")
+			_, ln := rec.Pos()
+			vndAssert(conflict && ln == 2, "syntax-error-only-for-a-conflicting-pair")
+			nerr++
 		}
 	}
 	vndReach("h02:unit-line")
+	vndAssert(nerr == vndIteInt(conflict, 1, 0), "conflicting-metadata-is-one-positioned-error")
+	vndAssert(r.Err() == nil, "conflict-is-not-fatal")
 	want := ""
 	for k, f := range fields {
 		if k != rep {
@@ -442,9 +450,13 @@ func H02UnitLine() {
 		}
 	}
 	vndAssert(got == want, "every-new-pair-of-the-line-is-recorded")
-	for _, f := range fields {
+	for k, f := range fields {
 		m := r.Units().Get("u", f[:1])
-		vndAssert(m != nil && m.Value == f[2:], "metadata-lookup")
+		if conflict && k == rep {
+			vndAssert(m != nil && m.Value == "9", "first-declaration-stands")
+		} else {
+			vndAssert(m != nil && m.Value == f[2:], "metadata-lookup")
+		}
 	}
 }
 
